@@ -239,3 +239,20 @@ func init() {
 		Assumptions: []string{"Clone yields an independent copy"},
 	})
 }
+
+func init() {
+	reg(&propCfg{
+		ID:      "C18",
+		Pkgs:    []string{"tax"},
+		Lenient: []string{"tax", "cbc"},
+		Stages:  []stage{{Name: "leaf-rules", Harness: `^H_C18_`}},
+		Functions: []string{"tax.Extensions.Validate", "cbc.(*Definition).HasCode", "cbc.(*Definition).CodeDef", "tax.ExtensionForKey (native registry)", "regexp matching of the definition's pattern (NFA)"},
+		Stubs:     []string{"registry look-ups (ExtensionForKey, AllAddonDefs, AllRegimeDefs): native import", "cbc.Key.Validate on concrete keys: native call", "published files data/addons|regimes|catalogues/*.json read at run time as the oracle"},
+		Bounds: map[string][]string{
+			"quick":    {"every registered extension key with <= 40 listed codes; candidate value: every ASCII string of 1..3 bytes (symbolic)"},
+			"thorough": {"keys with <= 300 listed codes"},
+		},
+		Outside:     []string{"that every reference position of every document type is wired to its rule (reflection-driven struct validation)", "category / rate-key membership rules, tag rules, currency and country code rules (not built in this session)", "values longer than 3 bytes"},
+		Assumptions: []string{"the published JSON files are the oracle of what non-Go consumers see"},
+	})
+}
